@@ -48,7 +48,8 @@ Definition e_create_cell (t sh cell : pyval) : res pyval :=
   end.
 Definition e_prints (a : pyval) : res pyval :=
   match addr_of_py a with
-  | Some a => Ok (VTuple [VStr (address a); VStr (quoted_address a); VStr (abs_address a);
+  | Some a => q <- quoted_address a ;; b <- abs_address a ;;
+              Ok (VTuple [VStr (address a); VStr q; VStr b;
                           VStr (coordinate a); VStr (abs_coordinate a)])
   | None => bad
   end.
@@ -92,6 +93,8 @@ Definition e_inc (f : Z -> Z -> Z) (a k : pyval) : res pyval :=
   match a, k with VInt a, VInt k => Ok (VInt (f a k)) | _, _ => bad end.
 Definition e_str1 (f : str -> str) (s : pyval) : res pyval :=
   match s with VStr s => Ok (VStr (f s)) | _ => bad end.
+Definition e_quote_sheet (s : pyval) : res pyval :=
+  match s with VStr s => q <- quote_sheet s ;; Ok (VStr q) | _ => bad end.
 Definition e_split (t sh : pyval) : res pyval :=
   match t, sh with
   | VStr t, VStr sh => p <- split_sheetname t sh ;; Ok (VTuple [VStr (fst p); VStr (snd p)])
@@ -117,7 +120,7 @@ Definition table : list entry :=
   ; E "offset" (call3 e_offset)
   ; E "inc_col" (call2 (e_inc inc_col))
   ; E "inc_row" (call2 (e_inc inc_row))
-  ; E "quote_sheet" (call1 (e_str1 quote_sheet))
+  ; E "quote_sheet" (call1 e_quote_sheet)
   ; E "quote_sheetname" (call1 (e_str1 quote_sheetname))
   ; E "unquote_sheetname" (call1 (e_str1 unquote_sheetname))
   ; E "split_sheetname" (call2 e_split)
